@@ -152,6 +152,68 @@ def const_cs(spec):
     return spec["kind"] in ("bag", "template")
 
 
+class OwnEOS:
+    """The equation of state evaluated from the spec's analytic p, p', p'' only -- no WallGo
+    code (Thermodynamics.csq/w/e, template.alN are code under test for the oracle)."""
+
+    def __init__(s, spec):
+        s.k, s.sp = spec["kind"], spec
+        s.Tnucl = spec["Tn"]
+        if s.k == "template":
+            cb2, cs2, Tn = spec["cb2"], spec["cs2"], spec["Tn"]
+            s.mu, s.nu = 1 + 1 / cs2, 1 + 1 / cb2
+            s.ap = 3 / (s.mu * Tn ** s.mu)
+            s.am = 3 * spec["psiN"] / (s.nu * Tn ** s.nu)
+            pH0, pL = s.ap * Tn ** s.mu / 3, s.am * Tn ** s.nu / 3
+            eH0, eL = (s.mu - 1) * pH0, (s.nu - 1) * pL
+            # bag constant from the definition of alpha_n at Tn (w+ = 1 there)
+            s.eps = (3 * spec["alN"] - eH0 + eL + (pH0 - pL) / cb2) / (1 + 1 / cb2)
+
+    def _p(s, T, hi):
+        sp = s.sp
+        if s.k == "bag":
+            if hi:
+                return T ** 4 - (1.0 - sp["psi"]), 4 * T ** 3, 12 * T ** 2
+            return sp["psi"] * T ** 4, 4 * sp["psi"] * T ** 3, 12 * sp["psi"] * T ** 2
+        if s.k == "twostep":
+            a = sp["asy"] if hi else sp["ab"]
+            c = (sp["ab"] - sp["asy"] - sp["musq"]) if hi else -sp["musq"]
+            u = c + a * T * T
+            return (T ** 4 + u * u - sp["musq"] ** 2, 4 * T ** 3 + 4 * a * T * u,
+                    12 * T * T + 8 * a * a * T * T + 4 * a * u)
+        if hi:
+            return (s.ap * T ** s.mu / 3 - s.eps, s.mu * s.ap * T ** (s.mu - 1) / 3,
+                    s.mu * (s.mu - 1) * s.ap * T ** (s.mu - 2) / 3)
+        return (s.am * T ** s.nu / 3, s.nu * s.am * T ** (s.nu - 1) / 3,
+                s.nu * (s.nu - 1) * s.am * T ** (s.nu - 2) / 3)
+
+    def pHighT(s, T):
+        return s._p(T, 1)[0]
+
+    def pLowT(s, T):
+        return s._p(T, 0)[0]
+
+    def wHighT(s, T):
+        return T * s._p(T, 1)[1]
+
+    def wLowT(s, T):
+        return T * s._p(T, 0)[1]
+
+    def csqHighT(s, T):
+        p = s._p(T, 1)
+        return p[1] / (T * p[2])
+
+    def csqLowT(s, T):
+        p = s._p(T, 0)
+        return p[1] / (T * p[2])
+
+    def alN(s):
+        Tn = s.Tnucl
+        pH, dH, _ = s._p(Tn, 1)
+        pL, dL, _ = s._p(Tn, 0)
+        return ((Tn * dH - pH) - (Tn * dL - pL) - (pH - pL) / s.csqLowT(Tn)) / (3 * Tn * dH)
+
+
 # ----------------------------------------------------------------------------------------
 # the oracle: an integrator that shares nothing with the code under test.  It is written
 # in the similarity variable xi (the code integrates in v) with its own Dormand-Prince 5(4)
@@ -299,15 +361,20 @@ def rarefaction_integral(th, vw, vm, Tm, rtol=1e-10):
     return -y[2]
 
 
-def oracle_kappa(th, hy, vw, vp, vm, Tp, Tm, rtol=1e-10):
-    wn = float(th.wHighT(th.Tnucl))
-    pre = 4.0 / (vw ** 3 * hy.template.alN * wn)
+def oracle_kappa(eos, vw, vp, vm, Tp, Tm, rtol=1e-10):
+    """kappa = 4/(vw^3 alpha_n w_n) int xi^2 v^2 gamma^2 w dxi over the profile that starts
+    from the returned matching.  `eos` is an OwnEOS: alpha_n, w_n, the sound speeds and the
+    decision which waves exist are the oracle's own (no vJ, alN, csq from the solver)."""
+    Tn = eos.Tnucl
+    pre = 4.0 / (vw ** 3 * eos.alN() * float(eos.wHighT(Tn)))
     ksw = krw = 0.0
-    if vw < hy.vJ and vw != vp:
-        _xiS, _vS, _TS, I = shock_profile(th, vw, vp, Tp, rtol)
+    # a shock wave exists iff the fluid moves ahead of the wall and the front is ahead of it
+    if vp != vw and vp * vw < float(eos.csqHighT(Tp)):
+        _xiS, _vS, _TS, I = shock_profile(eos, vw, vp, Tp, rtol)
         ksw = pre * I
-    if vw ** 2 > float(th.csqLowT(Tm)):
-        krw = pre * rarefaction_integral(th, vw, vm, Tm, rtol)
+    # a rarefaction wave exists iff the wall is supersonic with respect to the fluid behind
+    if vw ** 2 > float(eos.csqLowT(Tm)):
+        krw = pre * rarefaction_integral(eos, vw, vm, Tm, rtol)
     return ksw + krw, ksw, krw
 
 
@@ -340,33 +407,45 @@ def eos_specs(ctx):
     return specs
 
 
-MARGIN_VMIN = 1e-2   # the window is probed from vMin + MARGIN_VMIN (vMin itself is the result
-#                      of a root finder; the 2x2 matching does not converge in a sliver above it)
-SLOW_WALL = 5e-2     # ... and not below this wall velocity: for slower walls v+ approaches the
-#                      code's lower bracket end vBracketLow = 1e-3 (type-changing threshold)
+MARGIN_VMIN = 1e-2   # above a ROOT-FOUND vMin the 2x2 matching does not converge in a sliver
+#                      (the code says so: Hydrodynamics.success is False there)
+SLOW_WALL = 5e-2     # lower end used by C05's scans (kept for that harness)
+GATE_SLOW = 2e-3     # when vMin is the bracket end vBracketLow = 1e-3 the window is gated from here
 
 
 def window_lo(hy):
+    """lower end of the scans of C05"""
     return max(hy.vMin + MARGIN_VMIN, SLOW_WALL)
 
 
+def gate_lo(hy):
+    """lower end of the gated window of C03"""
+    if hy.vMin <= hy.vBracketLow * (1 + 1e-12):
+        return GATE_SLOW
+    return hy.vMin + MARGIN_VMIN
+
+
 def vw_grid(ctx, hy):
-    """wall velocities of the deflagration/hybrid window [vMin + margin, vJ): log-spaced
-    near the lower end, uniform, dense in the strip vJ-1e-2 .. vJ"""
+    """wall velocities of the deflagration/hybrid window [gate_lo, vJ]: slow walls, log-spaced
+    near the lower end, uniform, dense in the strip vJ-1e-2 .. vJ, and vJ itself"""
     rng = ctx.rng
-    lo, hi = window_lo(hy), hy.vJ
+    lo, hi = gate_lo(hy), hy.vJ
     g = [lo, lo + 1e-3, lo + 1e-2]
+    g += [v for v in (3e-3, 5e-3, 1e-2, 2e-2, 2.9e-2, 4e-2) if v > lo]
     g += [lo + (hi - lo) * x for x in (0.05, 0.15, 0.3, 0.45, 0.6, 0.75, 0.9)]
     g += [lo + (hi - lo) * rng.random() for _ in range(ctx.n(3, 12))]
-    g += [hi - d for d in (1e-2, 7e-3, 4e-3, 2e-3, 1e-3, 3e-4, 1e-4)]
+    g += [lo * (hi / lo) ** rng.random() for _ in range(ctx.n(2, 6))]
+    g += [hi - d for d in (1e-2, 7e-3, 4e-3, 2e-3, 1e-3, 3e-4, 1e-4, 3e-5, 1e-5)]
     g += [hi - 1e-2 * rng.random() for _ in range(ctx.n(2, 8))]
-    return sorted(v for v in g if lo <= v < hi)
+    g += [hi - 1e-4 * rng.random()]
+    return sorted(set(v for v in g if lo <= v < hi)) + [hi]
 
 
 def edge_grid(hy):
-    g = [hy.vMin + d for d in (1e-6, 1e-4, 1e-3, 3e-3, 6e-3)]
-    g += [v for v in (0.011, 0.021, 0.035) if hy.vMin + MARGIN_VMIN <= v]
-    return [v for v in g if v < min(window_lo(hy), hy.vJ)]
+    """the sliver above a root-found vMin"""
+    if gate_lo(hy) == GATE_SLOW:
+        return []
+    return [hy.vMin + d for d in (1e-6, 1e-4, 1e-3, 3e-3, 6e-3) if hy.vMin + d < hy.vJ]
 
 
 # ----------------------------------------------------------------------------------------
@@ -391,8 +470,9 @@ class Capture:
             return r
 
         def solve_ivp(fun, span, y0, *a, **k):
+            import sys
             r = self.orig[1](fun, span, y0, *a, **k)
-            self.ivps.append((fun, span, list(y0), k, r))
+            self.ivps.append((fun, span, list(y0), k, r, sys._getframe(1).f_code.co_name))
             return r
 
         def simpson(*a, **k):
@@ -418,7 +498,7 @@ def q(x):
     return pyrx.rlit(Fraction(float(x)))
 
 
-def coq_env(spec):
+def coq_env(spec, c03=False):
     """Coq term of type env for the EOS `spec` (exact rationals of the float parameters)"""
     Tn = q(spec["Tn"])
     if spec["kind"] == "twostep":
@@ -440,11 +520,14 @@ def coq_env(spec):
     else:
         raise ValueError("no Coq EOS for " + spec["kind"])
     f = lambda body: "(fun T : R => %s)" % body
-    return "(mk_env %s %s %s %s %s %s %s %s %s %s %s %s (fun x => x))" % (
-        Tn, q(0.01 * spec["Tn"]), q(10.0 * spec["Tn"]),
+    # record layout of GenC03.HydroShock: one more attribute (vJ) and two more oracles
+    fields = [Tn, q(0.01 * spec["Tn"]), q(10.0 * spec["Tn"])] + (["%(vJ)s"] if c03 else []) + [
         f("%s / (T * %s)" % (dpH, ddpH)), f("%s / (T * %s)" % (dpL, ddpL)),
         f("T * %s" % dpH), f("T * %s" % dpL), f(pH), f(pL),
-        f("T * %s - %s" % (dpH, pH)), f("T * %s - %s" % (dpL, pL)), "%(alN)s")
+        f("T * %s - %s" % (dpH, pH)), f("T * %s - %s" % (dpL, pL)), "%(alN)s", "(fun x => x)"]
+    if c03:
+        fields += ["(fun _ _ => (0, 0, 0, 0))", "(fun _ _ _ => 0)"]
+    return "(mk_env " + " ".join(fields) + ")"
 
 
 EVAL_HDR = """From Coq Require Import Reals Lra.
@@ -478,8 +561,8 @@ def correspondence(ctx, proved):
     for k, spec in enumerate(specs):
         th, hy = make_hydro(spec)
         ename = "e%d" % k
-        envs.append("Definition %s := %s." % (ename, coq_env(spec) % dict(
-            alN=q(hy.template.alN))))
+        envs.append("Definition %s := %s." % (ename, coq_env(spec, c03=True) % dict(
+            alN=q(hy.template.alN), vJ=q(hy.vJ))))
         Tn = spec["Tn"]
         # (1) the method shockDE, both waves
         for _ in range(ctx.n(3, 12)):
@@ -646,15 +729,33 @@ def correspondence(ctx, proved):
 # direct validation: the property on the real code
 
 TOL_TN = 5e-5        # oracle vs Tn at the returned matching, default tolerances (1e-6/1e-10)
-TOL_TN_TIGHT = 5e-8  # the same with solver tolerances 1e-9/1e-12
+TOL_TN_TIGHT = 5e-8  # the same with solver tolerances 1e-9/1e-12 (no loosening anywhere)
 FRONT_AT_WALL = 2e-3        # |v+ vw - cs^2(T+)| below this: front about to reach the wall
-TOL_TN_FRONT_AT_WALL = 2e-4
+TOL_TN_FRONT_AT_WALL = 2e-4  # default tolerances only
+TOL_TN_AT_VJ_TIGHT = 5e-6   # at vw == vJ exactly the code uses the template matching at
+#                             template.vJ - 1e-6 by design (1.7e-6 whatever the tolerance)
 TOL_SHOCK = 2e-5     # oracle vs solveHydroShock on the same (vw, v+, T+), default
 TOL_SHOCK_TIGHT = 5e-8
 TOL_MOM = 2e-5
 TOL_KAPPA = 2e-3     # kappa with solver tolerance 1e-11 (Simpson over the solve_ivp nodes)
 KAPPA_RTOL = 1e-11
 WORST = {}
+CLASS_JUMP = "findMatching-root-on-jump"
+
+# inputs on which the UNCHANGED code violates the property (class CLASS_JUMP, registered in
+# known_findings.json); replayed first in both tiers
+KNOWN_INPUTS = [
+    (dict(kind="twostep", ab=0.184, asy=0.087, musq=0.336, Tn=0.51), 0.011, 1e-6, 1e-10),
+    (dict(kind="twostep", ab=0.185, asy=0.102, musq=0.392, Tn=0.529), 0.007, 1e-6, 1e-10),
+    (dict(kind="template", psiN=0.9327, alN=0.02342, cs2=0.3127, cb2=0.3094, Tn=1.0), 0.005,
+     1e-6, 1e-10),
+    (dict(kind="template", psiN=0.9734, alN=0.00946, cs2=0.2559, cb2=0.2115, Tn=0.01), 0.003,
+     1e-6, 1e-10),
+    (dict(kind="template", psiN=0.9884, alN=0.00443, cs2=0.2721, cb2=0.2707, Tn=0.01), 0.021,
+     1e-6, 1e-10),
+    (dict(kind="template", psiN=0.8367, alN=0.05526, cs2=0.3021, cb2=0.2236, Tn=0.01),
+     0.6227008, 1e-9, 1e-12),
+]
 
 
 def rel(a, b):
@@ -671,71 +772,118 @@ def tight(hy):
 
 
 def find_matching(hy, vw):
-    """findMatching with a note whether the template fallback was used"""
+    """findMatching with a note whether the template fallback was used (hy.success is left
+    as the code sets it)"""
     used = []
     orig = hy.template.findMatching
     hy.template.findMatching = lambda v: (used.append(v), orig(v))[1]
     try:
-        hy.success = True
         res = hy.findMatching(vw)
     finally:
         del hy.template.findMatching
     return res, bool(used)
 
 
-def check_matching_reaches_Tn(ctx, spec, th, hy, vw, tag="", edge=False):
-    Tn = th.Tnucl
-    (vp, vm, Tp, Tm), fallback = find_matching(hy, vw)
+def shooting_residual(hy, vw, x):
+    """the function whose zero findMatching returns, rebuilt from the public methods
+    (Props/C03.v: shootResidual), relative to Tn"""
+    _vp, _vm, T, _Tm = hy.matchDeflagOrHyb(vw, x)
+    return hy.solveHydroShock(vw, x, T) / hy.Tnucl - 1.0
+
+
+def root_on_jump(hy, vw, vp, miss):
+    """Class rule of the registered finding CLASS_JUMP, measured on the live object: the v+
+    returned by findMatching sits on a sign change of the code's own shooting function that
+    is a JUMP (the inner 2x2 hybr solve hops between solutions), i.e. brentq legitimately
+    converged but not to a zero: within a relative distance <= 1e-4 of v+ the rebuilt
+    shooting residual takes both signs, and its value at v+ itself equals the observed miss
+    (so the returned matching really is the root finder's answer, not another formula)."""
+    try:
+        d0 = shooting_residual(hy, vw, vp)
+    except Exception:
+        return False
+    if abs(d0 - miss) > 0.05 * abs(miss) + 1e-9:
+        return False
+    for d in (1e-7, 1e-6, 1e-5, 1e-4):
+        try:
+            a, b = shooting_residual(hy, vw, vp * (1 - d)), shooting_residual(hy, vw,
+                                                                            vp * (1 + d))
+        except Exception:
+            continue
+        if a * b < 0 and max(abs(a), abs(b)) >= 0.5 * abs(miss):
+            return True
+    return False
+
+
+def check_matching_reaches_Tn(ctx, spec, eos, hy, vw, tag="", edge=False):
+    """the deflagration/hybrid clause at one wall velocity.  `eos`: the oracle's own EOS.
+    edge=True: a sample in the sliver above a root-found vMin -- judged like any other,
+    except that a result the code itself flags (Hydrodynamics.success False) is a diagnostic"""
+    Tn = hy.Tnucl
     case = dict(spec=spec, vw=vw, rtol=hy.rtol, atol=hy.atol)
+    try:
+        (vp, vm, Tp, Tm), fallback = find_matching(hy, vw)
+    except Exception as ex:
+        if edge:
+            ctx.count("edge_above_vMin", case, bucket="raise")
+            EDGE_BAD.append(dict(spec=spec, vw=vw, d=vw - hy.vMin, raised=repr(ex)[:120]))
+            return None
+        ctx.fail_input("findMatching(%r) raised %s inside the window; %s" % (
+            vw, repr(ex)[:160], spec), dict(kind="raise", tb=traceback.format_exc()[-800:],
+                                            **case), key="raises:" + spec["kind"])
+        return None
+    flagged = not bool(hy.success)
     tolT = TOL_TN_TIGHT if tight(hy) else TOL_TN
     tolS = TOL_SHOCK_TIGHT if tight(hy) else TOL_SHOCK
-    if edge:
-        # sliver above vMin: diagnostics only (see MARGIN_VMIN)
-        ok = vp is not None and hy.success
-        if ok:
-            try:
-                tn, _st = oracle_Tn(th, vw, vp, Tp)
-                ok = rel(tn, Tn) <= tolT
-            except RuntimeError:
-                ok = False
-        ctx.count("edge_above_vMin", case, bucket="%s:%s" % (
-            "ok" if ok else "BAD", "%.0e" % (vw - hy.vMin)))
-        if not ok:
-            EDGE_BAD.append(dict(spec=spec, vw=vw, d=vw - hy.vMin, vp=vp, Tp=Tp,
-                                 success=bool(hy.success), fallback=fallback))
+    at_vJ = vw == hy.vJ
+    if at_vJ and tight(hy):
+        tolT = TOL_TN_AT_VJ_TIGHT
+    if edge and (flagged or vp is None):
+        ctx.count("edge_above_vMin", case, bucket="flagged by the code:%.0e" % (vw - hy.vMin))
+        EDGE_BAD.append(dict(spec=spec, vw=vw, d=vw - hy.vMin, vp=vp, Tp=Tp,
+                             success=not flagged, fallback=fallback))
         return None
-    ctx.count("matching_reaches_Tn" + tag, case, bucket="%s:%s" % (
-        spec["kind"], "strip" if vw > hy.vJ - 1e-2 else
-        ("hybrid" if vw ** 2 > float(th.csqLowT(Tm or Tn)) else "deflag")))
+    ctx.count(("edge_above_vMin" if edge else "matching_reaches_Tn") + tag, case,
+              bucket="%s:%s" % (spec["kind"], "at vJ" if at_vJ else (
+                  "last 1e-4" if vw > hy.vJ - 1e-4 else (
+                      "strip" if vw > hy.vJ - 1e-2 else (
+                          "slow" if vw < SLOW_WALL else (
+                              "hybrid" if vw ** 2 > float(eos.csqLowT(Tm or Tn))
+                              else "deflag"))))))
     if vp is None:
-        ctx.fail_input("findMatching(%r) returned None inside [max(vMin+%g, %g), vJ) for %s" % (
-            vw, MARGIN_VMIN, SLOW_WALL, spec), dict(kind="no_matching", **case),
+        ctx.fail_input("findMatching(%r) returned None inside [%g, vJ] for %s" % (
+            vw, gate_lo(hy), spec), dict(kind="no_matching", **case),
             key="no-matching:" + spec["kind"])
         return None
     try:
-        tn, (xiS, vS, TS, I) = oracle_Tn(th, vw, vp, Tp)
+        tn, (xiS, vS, TS, I) = oracle_Tn(eos, vw, vp, Tp)
     except RuntimeError as ex:
         ctx.fail_input("flow from the returned (v+,T+) never reaches a shock front: %s; "
                        "vw=%r %s" % (ex, vw, spec), dict(kind="no_front", vp=vp, Tp=Tp,
                                                          **case), key="no-front")
         return None
+    miss = tn / Tn - 1.0
     # type-changing threshold: the shock front about to coincide with the wall (v+ vw ->
-    # cs^2(T+)); shockTnuclDiff jumps there by ~5e-5 and the root finder lands on the jump
-    if abs(vp * vw - float(th.csqHighT(Tp))) < FRONT_AT_WALL:
+    # cs^2(T+)); only the default-tolerance pass is loosened there
+    if not tight(hy) and abs(vp * vw - float(eos.csqHighT(Tp))) < FRONT_AT_WALL:
         tolT = max(tolT, TOL_TN_FRONT_AT_WALL)
         ctx.count("near_front_at_wall" + tag)
-        worst("Tn_front_at_wall" + tag, rel(tn, Tn), case)
+        worst("Tn_front_at_wall" + tag, abs(miss), case)
     else:
-        worst("Tn" + tag, rel(tn, Tn), case)
-    if rel(tn, Tn) > tolT:
+        worst("Tn" + tag + (":at_vJ" if at_vJ else ""), abs(miss), case)
+    if abs(miss) > tolT:
+        known = root_on_jump(hy, vw, vp, miss)
         ctx.fail_input(
-            "vw=%.6f: integrating from the returned v+=%.8f T+=%.8f to the front and "
-            "crossing it gives T=%.10g ahead, not Tn=%.10g (rel %.2e)%s%s; %s" % (
-                vw, vp, Tp, tn, Tn, rel(tn, Tn),
+            "vw=%.7f: integrating from the returned v+=%.8f T+=%.8f to the front and "
+            "crossing it gives T=%.10g ahead, not Tn=%.10g (rel %.2e)%s%s%s; %s [rtol %g]" % (
+                vw, vp, Tp, tn, Tn, abs(miss),
                 " [template fallback used]" if fallback else "",
-                "" if hy.success else " [Hydrodynamics.success is False]", spec),
+                " [Hydrodynamics.success is False]" if flagged else "",
+                " [v+ sits on a jump of the code's own shooting function]" if known else "",
+                spec, hy.rtol),
             dict(kind="Tn", vp=vp, Tp=Tp, got=tn, **case),
-            key="Tn-not-reached:%s%s" % (spec["kind"], ":fallback" if fallback else ""))
+            key=CLASS_JUMP if known else "Tn-not-reached:%s%s" % (
+                spec["kind"], ":fallback" if fallback else ""))
     # the code's own shock solution on the same data
     try:
         tn_code = hy.solveHydroShock(vw, vp, Tp)
@@ -755,8 +903,8 @@ def check_matching_reaches_Tn(ctx, spec, th, hy, vw, tag="", edge=False):
             key="solveHydroShock:" + spec["kind"])
     if const_cs(spec) and vS > 1e-6:
         m = mu(xiS, vS)
-        w1, p1 = float(th.wHighT(tn_code)), float(th.pHighT(tn_code))
-        w2, p2 = float(th.wHighT(TS)), float(th.pHighT(TS))
+        w1, p1 = float(eos.wHighT(tn_code)), float(eos.pHighT(tn_code))
+        w2, p2 = float(eos.wHighT(TS)), float(eos.pHighT(TS))
         M1 = w1 * xiS * xiS / (1 - xiS * xiS) + p1
         M2 = w2 * m * m / (1 - m * m) + p2
         ctx.count("momentum_flux_const_cs", case)
@@ -773,62 +921,146 @@ EDGE_BAD = []
 KAPPA_DEFAULT = []
 
 
-def check_free_shock(ctx, spec, th, hy):
-    """solveHydroShock on (vw, v+, T+) that do not come from a matching"""
+def check_free_shock(ctx, spec, eos, hy, branch):
+    """solveHydroShock on (vw, v+, T+) that do not come from a matching, on each of its three
+    branches; the returned temperature must also be a zero of the closure TiiShock that the
+    code handed to its root finder (bracket loop / brentq / secant section)"""
     rng = ctx.rng
-    Tn = th.Tnucl
+    Tn = hy.Tnucl
     vw = rng.uniform(0.05, min(0.95, hy.vJ + 0.1))
-    cs2 = float(th.csqHighT(Tn))
-    vp = rng.uniform(0.02, 0.98) * min(vw, cs2 / vw)
     Tp = Tn * rng.uniform(0.9, 1.5)
-    case = dict(spec=spec, vw=vw, vp=vp, Tp=Tp)
+    cs2 = float(eos.csqHighT(Tp))
+    if branch == "integrated":
+        vp = rng.uniform(0.02, 0.98) * min(vw, cs2 / vw)
+    elif branch == "rest":
+        vp = vw
+    else:                                   # front at the wall: v+ vw > cs^2(T+)
+        vw = rng.uniform(math.sqrt(cs2) + 0.02, 0.95)
+        vp = rng.uniform(cs2 / vw * 1.01, min(vw * 0.999, 0.99))
+        if not cs2 / vw < vp < vw:
+            return
+    case = dict(spec=spec, vw=vw, vp=vp, Tp=Tp, branch=branch, rtol=hy.rtol, atol=hy.atol)
     try:
-        tn_code = hy.solveHydroShock(vw, vp, Tp)
-        tn, _ = oracle_Tn(th, vw, vp, Tp)
-    except Exception:              # outside the domain of either: not a property failure
+        tn, _ = oracle_Tn(eos, vw, vp, Tp)
+    except Exception:              # outside the domain of the statement: no flow / no front
         ctx.count("free_shock_skipped", case)
         return
-    ctx.count("free_shock", case, bucket=spec["kind"])
-    worst("free_shock", rel(tn_code, tn), case)
+    try:
+        with Capture() as cap:
+            tn_code = hy.solveHydroShock(vw, vp, Tp)
+    except Exception as ex:
+        ctx.fail_input("solveHydroShock(vw=%.6f, v+=%.8f, T+=%.8f) raised %s although the "
+                       "flow reaches the front and T=%.8g ahead of it; %s" % (
+                           vw, vp, Tp, repr(ex)[:120], tn, spec),
+                       dict(kind="shock", want=tn, **case), key="solveHydroShock-raises")
+        return
+    ctx.count("free_shock", case, bucket="%s:%s" % (spec["kind"], branch))
+    worst("free_shock:" + branch, rel(tn_code, tn), case)
     if rel(tn_code, tn) > (TOL_SHOCK_TIGHT if tight(hy) else TOL_SHOCK):
-        ctx.fail_input("solveHydroShock(vw=%.6f, v+=%.8f, T+=%.8f) = %.10g but the "
+        ctx.fail_input("solveHydroShock(vw=%.6f, v+=%.8f, T+=%.8f) = %.10g [%s branch] but the "
                        "independent integration gives %.10g (rel %.2e); %s" % (
-                           vw, vp, Tp, tn_code, tn, rel(tn_code, tn), spec),
-                       dict(kind="shock", got=tn_code, want=tn, rtol=hy.rtol, atol=hy.atol,
-                            **case), key="solveHydroShock:" + spec["kind"])
+                           vw, vp, Tp, tn_code, branch, tn, rel(tn_code, tn), spec),
+                       dict(kind="shock", got=tn_code, want=tn, **case),
+                       key="solveHydroShock:" + spec["kind"])
+    fT = [r for r in cap.roots if getattr(r[0], "__name__", "") == "TiiShock"]
+    if not fT:
+        ctx.fail_input("solveHydroShock did not hand TiiShock to root_scalar; %s" % spec,
+                       dict(kind="shock", **case), key="TiiShock-not-solved")
+        return
+    f = fT[-1][0]
+    res = abs(float(f(tn_code)))
+    scale = abs(float(eos.wHighT(tn_code)))
+    worst("TiiShock_residual", res / scale, case)
+    if res > 1e-5 * scale:
+        ctx.fail_input("solveHydroShock returned %.10g where its own TiiShock = %.3e (enthalpy "
+                       "scale %.3e) [%s branch]; %s" % (tn_code, res, scale, branch, spec),
+                       dict(kind="shock", got=tn_code, **case), key="TiiShock-residual")
 
 
-def check_detonation(ctx, spec, th, hy, vw):
-    vp, vm, Tp, Tm = hy.findMatching(vw)
+def check_detonation(ctx, spec, eos, hy, vw):
     case = dict(spec=spec, vw=vw)
+    try:
+        vp, vm, Tp, Tm = hy.findMatching(vw)
+    except Exception as ex:
+        ctx.fail_input("findMatching(%r) raised %s for a detonation; %s" % (
+            vw, repr(ex)[:160], spec), dict(kind="deton", **case),
+            key="detonation-raises:" + spec["kind"])
+        return None
     ctx.count("detonation_front", case, bucket=spec["kind"])
-    if vp != vw or Tp != th.Tnucl:
+    if vp != vw or Tp != hy.Tnucl:
         ctx.fail_input("detonation vw=%r: plasma in front is disturbed: v+=%r T+=%r Tn=%r; %s"
-                       % (vw, vp, Tp, th.Tnucl, spec), dict(kind="deton", **case),
+                       % (vw, vp, Tp, hy.Tnucl, spec), dict(kind="deton", **case),
                        key="detonation-front")
     return vp, vm, Tp, Tm
 
 
-def check_kappa(ctx, spec, th, hy, hy_default, vw):
-    """hy has solver tolerance KAPPA_RTOL; hy_default the default one (diagnostic)"""
+def check_kappa(ctx, spec, eos, hy, hy_default, vw):
+    """hy has solver tolerance KAPPA_RTOL; hy_default the default one (diagnostic).  Besides the
+    value, the plan of efficiencyFactor is measured on the live call (Props/C03.v kappa_plan):
+    which waves are integrated, from which state, with which terminal event."""
     case = dict(spec=spec, vw=vw, rtol=hy.rtol, atol=hy.atol)
     try:
         vp, vm, Tp, Tm = hy.findMatching(vw)
-        kap = hy.efficiencyFactor(vw)
-        want, ksw, krw = oracle_kappa(th, hy, vw, vp, vm, Tp, Tm)
+        if vp is None:
+            raise RuntimeError("findMatching returned None")
+        with Capture() as cap:
+            kap = hy.efficiencyFactor(vw)
     except Exception as ex:
-        ctx.log("kappa check skipped (%r) at vw=%r %s" % (ex, vw, spec))
-        ctx.count("kappa_skipped", case)
+        ctx.fail_input("efficiencyFactor(%r) raised %s inside the window; %s" % (
+            vw, repr(ex)[:160], spec), dict(kind="kappa", **case),
+            key="kappa-raises:" + spec["kind"])
         return
-    kind = "deton" if vw > hy.vJ else ("hybrid" if krw else "deflag")
+    try:
+        want, ksw, krw = oracle_kappa(eos, vw, vp, vm, Tp, Tm)
+    except Exception as ex:
+        ctx.log("kappa oracle failed (%r) at vw=%r %s" % (ex, vw, spec))
+        ctx.count("kappa_oracle_failed", case)
+        return
+    kind = "deton" if vp == vw else ("hybrid" if krw else "deflag")
     ctx.count("kappa", case, bucket="%s:%s" % (spec["kind"], kind))
     worst("kappa", rel(kap, want), case)
     if abs(kap - want) > TOL_KAPPA * abs(want) + 1e-9:
-        ctx.fail_input("efficiencyFactor(%.6f) = %.8g but the kinetic-energy integral of the "
+        ctx.fail_input("efficiencyFactor(%.7f) = %.8g but the kinetic-energy integral of the "
                        "flow profile is %.8g (shock %.6g + rarefaction %.6g) [solver rtol "
                        "%g]; %s" % (vw, kap, want, ksw, krw, hy.rtol, spec),
                        dict(kind="kappa", got=kap, want=want, **case),
                        key="kappa:" + spec["kind"])
+    # the plan, measured
+    ivps = [i for i in cap.ivps if getattr(i[0], "__name__", "") == "shockDE" and
+            i[5] == "efficiencyFactor"]
+    sw = [i for i in ivps if i[3].get("args") in (None, (True,))]
+    rw = [i for i in ivps if i[3].get("args") == (False,)]
+    want_sw = vp != vw and vp * vw < float(eos.csqHighT(Tp))
+    want_rw = vw ** 2 > float(eos.csqLowT(Tm))
+    bad = None
+    if bool(sw) != want_sw or len(sw) > 1:
+        bad = "shock wave %sintegrated although v+ vw - cs^2(T+) = %.3e, v+ %s vw" % (
+            "" if sw else "NOT ", vp * vw - float(eos.csqHighT(Tp)), "==" if vp == vw else "!=")
+    elif bool(rw) != want_rw or len(rw) > 1:
+        bad = "rarefaction wave %sintegrated although vw^2 - cb^2(T-) = %.3e" % (
+            "" if rw else "NOT ", vw ** 2 - float(eos.csqLowT(Tm)))
+    else:
+        for lab, lst, v0, T0, ev in (("shock", sw, mu(vw, vp), Tp, True),
+                                     ("rarefaction", rw, mu(vw, vm), Tm, False)):
+            for i in lst:
+                span, y0, kw = i[1], i[2], i[3]
+                e = kw.get("events")
+                if abs(span[0] - v0) > 1e-14 or y0 != [vw, T0] or not 0 < span[1] <= 1e-6:
+                    bad = "%s wave integrated from v=%r (xi,T)=%r down to %r, expected " \
+                        "v=%r (xi,T)=%r" % (lab, span[0], y0, span[1], v0, [vw, T0])
+                elif ev and (e is None or not getattr(e, "terminal", False) or abs(
+                        e(0.3, [0.7, Tp]) - (mu(0.7, 0.3) * 0.7 - float(
+                            eos.csqHighT(Tp)))) > 1e-12):
+                    bad = "shock wave integrated without the terminal front event"
+                elif not ev and e is not None:
+                    bad = "rarefaction wave integrated with an event"
+                elif kw.get("rtol") != hy.rtol or kw.get("atol") != 0:
+                    bad = "%s wave integrated with rtol=%r atol=%r" % (lab, kw.get("rtol"),
+                                                                      kw.get("atol"))
+    ctx.count("kappa_plan", case)
+    if bad:
+        ctx.fail_input("efficiencyFactor(%.7f): %s; %s" % (vw, bad, spec),
+                       dict(kind="kappa", **case), key="kappa-plan")
     if hy_default is not None:
         try:
             kd = hy_default.efficiencyFactor(vw)
@@ -843,12 +1075,43 @@ def check_kappa(ctx, spec, th, hy, hy_default, vw):
             pass
 
 
+def kappa_points(ctx, eos, hy, grid, full):
+    """wall velocities at which kappa is checked: always a deflagration, the near-Jouguet
+    strip, a generic hybrid, both sides of cb, detonations near vJ and near 1; the whole grid
+    for `full`"""
+    cb = math.sqrt(float(eos.csqLowT(eos.Tnucl)))
+    lo, vJ = gate_lo(hy), hy.vJ
+    pts = [grid[len(grid) // 3], vJ - 3e-4, 0.5 * (max(cb, lo) + vJ), vJ + 1e-3,
+           vJ + 0.5 * (0.99 - vJ)]
+    if full:
+        pts += list(grid) + [vJ - 1e-4, vJ - 1e-3, cb - 1e-3, cb + 1e-3, 0.99]
+    else:
+        pts += [ctx.rng.choice([vJ - 1e-4, vJ - 1e-3, cb - 1e-3, cb + 1e-3, 0.99])]
+    # vJ of this solver is itself a root (rtol): stay 1e-5 away from the type change
+    return sorted(set(v for v in pts if lo <= v <= 0.99 and abs(v - vJ) >= 1e-5))
+
+
+def replay_known(ctx):
+    for spec, vw, rtol, atol in KNOWN_INPUTS:
+        try:
+            _th, hy = make_hydro(spec, rtol, atol)
+            check_matching_reaches_Tn(ctx, spec, OwnEOS(spec), hy, vw,
+                                      tag="_tight" if rtol < 1e-8 else "")
+            ctx.count("known_input_replayed", dict(spec=spec, vw=vw, rtol=rtol))
+        except Exception as ex:
+            ctx.fail_input("replay of a recorded input raised %r; %s vw=%r" % (ex, spec, vw),
+                           dict(kind="raise", spec=spec, vw=vw, rtol=rtol, atol=atol),
+                           key="raises:" + spec["kind"])
+
+
 def direct(ctx):
-    specs = eos_specs(ctx)
-    rng = ctx.rng
     WORST.clear()
     del EDGE_BAD[:]
     del KAPPA_DEFAULT[:]
+    replay_known(ctx)
+    specs = eos_specs(ctx)
+    rng = ctx.rng
+    seen_kind = set()
     for n, spec in enumerate(specs):
         try:
             th, hy = make_hydro(spec)
@@ -856,69 +1119,57 @@ def direct(ctx):
             ctx.log("EOS skipped (constructor raised %r): %s" % (ex, spec))
             ctx.count("eos_skipped", spec)
             continue
-        if not (window_lo(hy) < hy.vJ - 2e-2):
+        eos = OwnEOS(spec)
+        if not (gate_lo(hy) < hy.vJ - 2e-2):
             ctx.count("eos_no_window", spec)
             continue
         if n < 3:
             ctx.sample(dict(eos=spec, vJ=hy.vJ, vMin=hy.vMin))
         grid = vw_grid(ctx, hy)
         for vw in grid:
-            try:
-                check_matching_reaches_Tn(ctx, spec, th, hy, vw)
-            except Exception as ex:
-                ctx.fail_input("findMatching/solveHydroShock raised %r at vw=%r; %s" % (
-                    ex, vw, spec), dict(kind="raise", spec=spec, vw=vw,
-                                        tb=traceback.format_exc()[-800:]),
-                    key="raises:" + spec["kind"])
+            check_matching_reaches_Tn(ctx, spec, eos, hy, vw)
         for vw in edge_grid(hy):
-            try:
-                check_matching_reaches_Tn(ctx, spec, th, hy, vw, edge=True)
-            except Exception as ex:
-                ctx.count("edge_above_vMin", None, bucket="BAD:raise")
-                EDGE_BAD.append(dict(spec=spec, vw=vw, d=vw - hy.vMin, raised=repr(ex)))
-        for _ in range(ctx.n(4, 20)):
-            check_free_shock(ctx, spec, th, hy)
-        for vw in [hy.vJ + 1e-3, hy.vJ + (0.99 - hy.vJ) * rng.random(), 0.99]:
+            check_matching_reaches_Tn(ctx, spec, eos, hy, vw, edge=True)
+        for k in range(ctx.n(6, 24)):
+            check_free_shock(ctx, spec, eos, hy, ("integrated", "integrated", "rest",
+                                                  "front_at_wall")[k % 4])
+        for vw in [hy.vJ + 1e-5, hy.vJ + 1e-3, hy.vJ + (0.99 - hy.vJ) * rng.random(),
+                   0.99]:
             if hy.vJ < vw < 1:
-                try:
-                    check_detonation(ctx, spec, th, hy, vw)
-                except Exception as ex:
-                    ctx.log("detonation matching raised %r at vw=%r %s" % (ex, vw, spec))
-                    ctx.count("detonation_raise", dict(spec=spec, vw=vw))
+                check_detonation(ctx, spec, eos, hy, vw)
         try:
             _th, hyk = make_hydro(spec, rtol=KAPPA_RTOL, atol=1e-13)
-        except Exception:
+        except Exception as ex:
+            ctx.fail_input("Hydrodynamics(rtol=%g) raised %r; %s" % (KAPPA_RTOL, ex, spec),
+                           dict(kind="raise", spec=spec), key="raises:" + spec["kind"])
             continue
-        kv = [grid[len(grid) // 3], grid[-4], hy.vJ + 0.5 * (0.99 - hy.vJ)]
-        for vw in kv:
-            check_kappa(ctx, spec, th, hyk, hy, vw)
-    # tight solver tolerances: the same statement at 1e-9
+        full = spec["kind"] not in seen_kind or (not ctx.quick and n % 6 == 0)
+        seen_kind.add(spec["kind"])
+        for vw in kappa_points(ctx, eos, hyk, grid, full):
+            check_kappa(ctx, spec, eos, hyk, hy if not full else None, vw)
+    # tight solver tolerances: the same statement at 1e-9, nowhere loosened
     for spec in specs[:ctx.n(8, 60)]:
         try:
             th, hy = make_hydro(spec, rtol=1e-9, atol=1e-12)
         except Exception:
             continue
-        if not (window_lo(hy) < hy.vJ - 2e-2):
+        eos = OwnEOS(spec)
+        if not (gate_lo(hy) < hy.vJ - 2e-2):
             continue
         for vw in vw_grid(ctx, hy)[::ctx.n(2, 1)]:
-            try:
-                check_matching_reaches_Tn(ctx, spec, th, hy, vw, tag="_tight")
-            except Exception as ex:
-                ctx.fail_input("findMatching/solveHydroShock raised %r at vw=%r (tight); %s"
-                               % (ex, vw, spec), dict(kind="raise", spec=spec, vw=vw,
-                                                      rtol=1e-9, atol=1e-12),
-                               key="raises:" + spec["kind"])
-        for _ in range(ctx.n(4, 20)):
-            check_free_shock(ctx, spec, th, hy)
+            check_matching_reaches_Tn(ctx, spec, eos, hy, vw, tag="_tight")
+        for k in range(ctx.n(4, 20)):
+            check_free_shock(ctx, spec, eos, hy, ("integrated", "rest", "front_at_wall",
+                                                  "integrated")[k % 4])
     for k in sorted(WORST):
         ctx.log("worst observed %-28s %.3e  %s" % (k, WORST[k][0], json.dumps(
             WORST[k][1], default=str)[:160]))
     ctx.cov["worst_observed"] = {k: v[0] for k, v in WORST.items()}
     if EDGE_BAD:
-        ctx.log("NOTE: %d matchings below the checked window (vw < max(vMin+%g, %g)) are "
-                "missing / not converged / miss Tn (candidates listed in the evidence)" % (
-                    len(EDGE_BAD), MARGIN_VMIN, SLOW_WALL))
-        ctx.cov["edge_above_vMin_bad"] = EDGE_BAD[:12]
+        ctx.log("NOTE: %d matchings in the sliver above a root-found vMin are flagged by the "
+                "code itself (success False / None) -- diagnostics, listed in the evidence" %
+                len(EDGE_BAD))
+        ctx.cov["edge_above_vMin_flagged"] = EDGE_BAD[:12]
     if KAPPA_DEFAULT:
         worst_k = max(KAPPA_DEFAULT, key=lambda d: rel(d["got"], d["want"]))
         msg = ("efficiencyFactor with the DEFAULT solver tolerance (rtol 1e-6) is off by more "
@@ -994,16 +1245,22 @@ def _run(ctx):
     direct(ctx)
     ctx.cov["rule"] = (
         "EOS: two-step toy model (fixed + random couplings, Tn 0.5..0.95 Tc), bag (psi 0.5.."
-        "0.98), template (random alpha_n, psi_n, cs2, cb2; Tn in {0.01, 1, 100}); per EOS the "
-        "deflagration/hybrid window [max(vMin + %g, 0.05), vJ) is covered by ~20 wall velocities incl. 3 "
-        "within 1e-2 of its lower end and >= 9 in the strip vJ-1e-2..vJ (the sliver below "
-        "is sampled for diagnostics only); default (1e-6/1e-10) and "
-        "tight (1e-9/1e-12) solver tolerances; detonations vJ+1e-3..0.99; free (vw,v+,T+) "
-        "triples for solveHydroShock; kappa at a deflagration, a near-Jouguet hybrid and a "
-        "detonation per EOS. Within |v+ vw - cs^2(T+)| < 2e-3 of the front-at-wall threshold "
-        "the Tn tolerance is 2e-4. Tolerances: Tn %.0e, shock %.0e, momentum %.0e, kappa %.0e "
-        "(relative). distinct = distinct (EOS, vw, tolerances)." % (
-            MARGIN_VMIN, TOL_TN, TOL_SHOCK, TOL_MOM, TOL_KAPPA))
+        "0.98), template (random alpha_n, psi_n, cs2, cb2; Tn in {0.01, 1, 100}); the oracle "
+        "evaluates the EOS, alpha_n and the existence of each wave from the spec's analytic "
+        "p, p', p'' (no WallGo code). Per EOS the deflagration/hybrid window is gated from "
+        "2e-3 when vMin = vBracketLow, else from vMin + %g (the sliver below is judged too, "
+        "except results the code flags itself with success False), up to and including vJ: "
+        "~35 wall velocities incl. slow walls 2e-3..4e-2, >= 12 in the strip vJ-1e-2..vJ, "
+        "3 in the last 1e-4 and vJ itself; default (1e-6/1e-10) and tight (1e-9/1e-12) "
+        "solver tolerances; detonations vJ+1e-5..0.99; free (vw,v+,T+) triples on all "
+        "three branches of solveHydroShock with the TiiShock residual asserted; kappa (value "
+        "and measured plan) at >= 6 velocities per EOS and on the whole grid for one EOS per "
+        "family. Tolerances: Tn %.0e default (2e-4 within |v+ vw - cs^2(T+)| < 2e-3) / %.0e "
+        "tight everywhere (5e-6 at vw == vJ where the code uses the template matching at "
+        "template.vJ - 1e-6 by design), shock %.0e, momentum %.0e, kappa %.0e (relative). "
+        "Exceptions and None results inside the window are failing inputs. distinct = "
+        "distinct (EOS, vw, tolerances)." % (
+            MARGIN_VMIN, TOL_TN, TOL_TN_TIGHT, TOL_SHOCK, TOL_MOM, TOL_KAPPA))
     ctx.assumptions += [
         "solve_ivp follows shockDE to its rtol and stops at the terminal event (validated: "
         "independent integrator in xi agrees on every sampled input)",
@@ -1036,7 +1293,7 @@ def replay(rep):
     if rep.get("kind") == "kappa":
         vp, vm, Tp, Tm = hy.findMatching(vw)
         a = hy.efficiencyFactor(vw)
-        b = oracle_kappa(th, hy, vw, vp, vm, Tp, Tm)
+        b = oracle_kappa(OwnEOS(spec), vw, vp, vm, Tp, Tm)
         print("efficiencyFactor", a, "oracle", b, "rel %.3e" % rel(a, b[0]))
         return 1 if abs(a - b[0]) > (TOL_KAPPA if hy.rtol < 1e-9 else 1e-2) * abs(b[0]) \
             + 1e-9 else 0
